@@ -352,7 +352,7 @@ func cellHoldsOnly(addr ssa.Value, v ssa.Value) bool {
 	}
 	if a, ok := cellRoot(addr).(*ssa.Alloc); ok {
 		st, _, esc := cellStores(a)
-		return !esc && len(st) == 1 && st[0] == v
+		return !esc && len(st) == 1 && (st[0] == v || carriesOnly(st[0], v))
 	}
 	return addr == v
 }
